@@ -6,7 +6,8 @@ Input lines `h` / `b` / `cnt` / `store` / `fresh` are Model P's (CommitProto). T
   trace of the fault-free commit, cut), after checking that `Recovery.commitOps` is exactly the durable part of it.
 * `state ids stores` — the disk state (registry images, blobs, counts, the dead transaction's log files).
 * `recover`   — priority rollback + expired-log rollback; output: the durable calls they make.
-* `verdict`   — before | after | same | neither, and loadable | dangling.
+* `verdict`   — before | after | same | neither, and loadable | dangling (annotated `#C08/follow-up-blocked-…` when the
+  recovery left a node of the write set that no later writer can reserve).
 * `public t1,t2,…` — C09: public transactions (Begin, open, Commit) at clock offsets (minutes) in a new process;
   `idle t1,t2,…` — the same with `onIdle` invoked once a store is attached. Output: per transaction which
   maintenance clocks moved.
@@ -57,7 +58,11 @@ def verdict (st : St) (d : DState) : String :=
   let isB := isBefore d.s st.s0 w
   let isA := isAfter d.s fin w
   let v := if isB && isA then "same" else if isB then "before" else if isA then "after" else "neither"
+  -- a node of the write set that was reservable before the commit and can never be reserved again (C08-F4):
+  -- reported by the model itself as a deviation from the specification (annotation, not part of the compared line)
+  let blocked := (stuckLids d.s w).any (fun i => !(stuckLids st.s0 w).contains i)
   v ++ (if reachableOk d.s fin w then " loadable" else " dangling")
+    ++ (if blocked then "\t#C08/follow-up-blocked-by-zeroed-timestamp-on-two-id-handle" else "")
 
 def minutes (s : String) : List Int := (natList s).map (fun (n : Nat) => Int.ofNat n)
 
